@@ -121,41 +121,41 @@ theorem C08_phi2z_fixed_unique (e phi phi' : ℝ) (he0 : 0 ≤ e) (he1 : e < 1) 
 
 /-- **merc chain** (ellipsoid): inverse ∘ forward = `(λ, phi2z e (tsfnz e φ sin φ))` -/
 theorem merc_chain (c : MercC ℝ) (hs : c.sr.sphere = false) (ha : 0 < c.sr.a) (hk : 0 < c.k0)
-    (lon lat : ℝ) (hlat : |lat| ≤ 1.5) (he : |c.sr.e * sin lat| < 1) (hlon : |lon| ≤ sPi)
+    (lon lat : ℝ) (hlat : |lat| ≤ 1.5) (he : |c.e * sin lat| < 1) (hlon : |lon| ≤ sPi)
     (hdl : |lon - c.sr.long0| ≤ sPi) :
     (fwdMerc c lon lat).bind (fun q => invMerc c q.1 q.2) =
-      (phi2z c.sr.e (tsfnz c.sr.e lat (sin lat))).map (fun phi => (lon, phi)) := by
+      (phi2z c.e (tsfnz c.e lat (sin lat))).map (fun phi => (lon, phi)) := by
   have hpi : (3.14 : ℝ) < π := pi_gt_d2
   have hak : c.sr.a * c.k0 ≠ 0 := (mul_pos ha hk).ne'
-  have hts := tsfnz_pos c.sr.e lat (by linarith) he
+  have hts := tsfnz_pos c.e lat (by linarith) he
   rw [fwdMerc_ell c hs lon lat hlat, adjustLon_id hdl]
-  have hexp : exp (-(c.sr.y0 - c.sr.a * c.k0 * log (tsfnz c.sr.e lat (sin lat)) - c.sr.y0) / (c.sr.a * c.k0))
-      = tsfnz c.sr.e lat (sin lat) := by
-    rw [show -(c.sr.y0 - c.sr.a * c.k0 * log (tsfnz c.sr.e lat (sin lat)) - c.sr.y0) / (c.sr.a * c.k0)
-      = log (tsfnz c.sr.e lat (sin lat)) by field_simp; ring, exp_log hts]
+  have hexp : exp (-(c.sr.y0 - c.sr.a * c.k0 * log (tsfnz c.e lat (sin lat)) - c.sr.y0) / (c.sr.a * c.k0))
+      = tsfnz c.e lat (sin lat) := by
+    rw [show -(c.sr.y0 - c.sr.a * c.k0 * log (tsfnz c.e lat (sin lat)) - c.sr.y0) / (c.sr.a * c.k0)
+      = log (tsfnz c.e lat (sin lat)) by field_simp; ring, exp_log hts]
   have hl : c.sr.long0 + (c.sr.x0 + c.sr.a * c.k0 * (lon - c.sr.long0) - c.sr.x0) / (c.sr.a * c.k0) = lon := by
     field_simp; ring
   simp only [Except.bind, invMerc, hs, Bool.false_eq_true, if_false, bind, pure, Except.pure, exp_real, hexp, hl,
     adjustLon_id hlon]
-  cases phi2z c.sr.e (tsfnz c.sr.e lat (sin lat)) <;> rfl
+  cases phi2z c.e (tsfnz c.e lat (sin lat)) <;> rfl
 
 /-- **merc_ell_inv_exact** (ellipsoid, 0 ≤ e < 1): if `phi2z` stops at a latitude in (−π/2, π/2) where its
 update is exactly zero, then inverse(forward(λ, φ)) = (λ, φ): it RETURNS THE ORIGINAL LATITUDE
 (uniqueness of the fixed point). -/
 theorem C08_merc_ell_inv_exact (c : MercC ℝ) (hs : c.sr.sphere = false) (ha : 0 < c.sr.a) (hk : 0 < c.k0)
-    (he0 : 0 ≤ c.sr.e) (he1 : c.sr.e < 1) (lon lat lat' : ℝ) (hlat : |lat| ≤ 1.5) (hlat' : |lat'| < π / 2)
+    (he0 : 0 ≤ c.e) (he1 : c.e < 1) (lon lat lat' : ℝ) (hlat : |lat| ≤ 1.5) (hlat' : |lat'| < π / 2)
     (hlon : |lon| ≤ sPi) (hdl : |lon - c.sr.long0| ≤ sPi)
-    (hconv : phi2z c.sr.e (tsfnz c.sr.e lat (sin lat)) = .ok lat')
-    (hstat : phi2zStep c.sr.e (tsfnz c.sr.e lat (sin lat)) lat' = 0) :
+    (hconv : phi2z c.e (tsfnz c.e lat (sin lat)) = .ok lat')
+    (hstat : phi2zStep c.e (tsfnz c.e lat (sin lat)) lat' = 0) :
     (fwdMerc c lon lat).bind (fun q => invMerc c q.1 q.2) = .ok (lon, lat) := by
   have hpi : (3.14 : ℝ) < π := pi_gt_d2
   have hlt : |lat| < π / 2 := by linarith
-  have he : |c.sr.e * sin lat| < 1 := by
+  have he : |c.e * sin lat| < 1 := by
     rw [abs_mul, abs_of_nonneg he0]
-    calc c.sr.e * |sin lat| ≤ c.sr.e * 1 := mul_le_mul_of_nonneg_left (abs_sin_le_one _) he0
+    calc c.e * |sin lat| ≤ c.e * 1 := mul_le_mul_of_nonneg_left (abs_sin_le_one _) he0
       _ < 1 := by linarith
   rw [merc_chain c hs ha hk lon lat hlat he hlon hdl, hconv,
-    C08_phi2z_fixed_unique c.sr.e lat lat' he0 he1 hlt hlat' hstat]
+    C08_phi2z_fixed_unique c.e lat lat' he0 he1 hlt hlat' hstat]
   rfl
 
 /-- **lcc_inv_exact** (ellipsoid, 0 ≤ e < 1, both cone signs): same conclusion for the Lambert conformal conic. -/
